@@ -215,7 +215,8 @@ def check_C06(run):
     run.cov["traces_validated_against_impl"] = len(reqs) + len(rq2)
     run.sample({"request": reqs[0][:200], "implementation": impl[0][:300]})
     run.sample({"canonical": canon[0] if canon else "", "implementation": impl2[0][:200] if canon else ""})
-    run.cov["explanation"] = "PARTIAL proof: decimal and square-name round-trip lemmas; whole-FEN round trip rests on the runs above"
+    run.cov["explanation"] = ("proof on the model of the first sentence: the printed FEN parses back to the same record for every valid position incl. castling rights (C06_fen_roundtrip; dead files of lost rights "
+                              "are reset: C06_fen_roundtrip_modulo_dead_files); the converse direction and the tie to the code rest on the runs above")
 
 
 # ====================================================================== C07
